@@ -14,10 +14,12 @@ def run(ctx, res):
     if ctx.tier == "quick":
         off = ctx.seed % 16
         findgen.gen_find(ctx, res, findgen.ALL_FAMILIES, [], "net", True, [97, 98, 10], 3, 16, off, "F-rtl")
+        findgen.gen_find(ctx, res, ["atomseq", "nlend"], [], "net", True, [97, 98, 10], 4, 2, ctx.seed % 2, "F-rtl-len4")
         findobs.obs_find(ctx, res, ["-n", "1200", "-stream", "20", "-rtl", "yes", "-opts", "ims", "-re2", "0"], "B-rtl")
     else:
         findgen.gen_find(ctx, res, findgen.ALL_FAMILIES, [], "net", True, [97, 98, 10], 3, 1, 0, "F-rtl-abn3")
         findgen.gen_find(ctx, res, findgen.ALL_FAMILIES, [], "net", True, [97, 98], 5, 3, ctx.seed % 3, "F-rtl-ab5")
+        findgen.gen_find(ctx, res, ["atomseq", "nlend", "atom", "nested"], [], "net", True, [97, 98, 10], 4, 1, 0, "F-rtl-len4")
         findgen.gen_find(ctx, res, findgen.ALL_FAMILIES, ["i", "m"], "net", True, [97, 66, 10], 3, 2, ctx.seed % 2, "F-rtl-im")
         findgen.gen_find(ctx, res, findgen.ALL_FAMILIES, ["s"], "net", True, [97, 98, 10], 3, 2, (ctx.seed + 1) % 2, "F-rtl-s")
         for b in range(6):
